@@ -289,6 +289,14 @@ func (r *Runner) runReal(st Step, id int64) *RealResult {
 		}
 	})
 	ex := r.ex.WithContext(ctx)
+	if st.EarlierCtx != "" {
+		type unrelated struct{}
+		earlier := context.WithValue(context.Background(), unrelated{}, 1)
+		if strings.HasPrefix(st.EarlierCtx, "s:") {
+			earlier = context.WithValue(earlier, cachepolicy.CacheKey, st.EarlierCtx[2:])
+		}
+		ex = r.ex.WithContext(earlier).WithContext(ctx)
+	}
 	if st.PreCancel {
 		cancel()
 	}
